@@ -85,6 +85,8 @@ func buildValues(rng *rand.Rand) *values {
 		{SerialNumber: gen.SerialOfWidth(rng, 20, false), RevocationTime: time.Date(2051, 1, 1, 0, 0, 0, 0, time.UTC)},
 		{SerialNumber: gen.SerialOfWidth(rng, 20, true), RevocationTime: t0, Extensions: []pkix.Extension{{Id: oid, Critical: true, Value: []byte{0x0a, 1, 2}}, {Id: oid2, Value: make([]byte, 300)}}},
 		{SerialNumber: big.NewInt(-5), RevocationTime: t0},
+		{SerialNumber: big.NewInt(5), RevocationTime: t0.Add(time.Minute)},
+		{SerialNumber: big.NewInt(-256), RevocationTime: t0},
 		{SerialNumber: big.NewInt(0), RevocationTime: t0},
 		{SerialNumber: new(big.Int).Lsh(big.NewInt(1), 159), RevocationTime: time.Date(1999, 12, 31, 23, 59, 59, 0, time.UTC)},
 		{SerialNumber: big.NewInt(255), RevocationTime: t0},
